@@ -564,6 +564,8 @@ def run_feat(case, r):
             # the deprecated spellings are the same calls
             for nm_, new_, old_ in (("retrieve_data", lambda: tag.tagged_data(0), lambda: tag.retrieve_data(0)),
                                     ("retrieve_feature_data", lambda: tag.feature_data(0), lambda: tag.retrieve_feature_data(0))):
+                if not hasattr(tag, nm_):
+                    continue            # a deprecated spelling may be removed; if it exists it must be the same call
                 a_, b_ = observe(new_), observe(old_)
                 r.evals += 1
                 if a_[0] != b_[0] or (a_[1] is not None and not np.array_equal(a_[1], b_[1])):
@@ -585,6 +587,8 @@ def run_feat(case, r):
                           fdatas[2], [[i], [0, 1]], True, st, got)
             for nm_, new_, old_ in (("retrieve_data", lambda: mt.tagged_data(i, 0), lambda: mt.retrieve_data(i, 0)),
                                     ("retrieve_feature_data", lambda: mt.feature_data(i, 0), lambda: mt.retrieve_feature_data(i, 0))):
+                if not hasattr(mt, nm_):
+                    continue
                 a_, b_ = observe(new_), observe(old_)
                 r.evals += 1
                 if a_[0] != b_[0] or (a_[1] is not None and not np.array_equal(a_[1], b_[1])):
